@@ -1,6 +1,10 @@
 package main
 
 import (
+	"encoding/json"
+	"flag"
+
+	"verif/engine/driver"
 	"fmt"
 	"os"
 	"sort"
@@ -19,6 +23,10 @@ func main() {
 	switch os.Args[1] {
 	case "dev":
 		dev(os.Args[2:])
+	case "run":
+		os.Exit(run(os.Args[2:]))
+	case "replay":
+		os.Exit(replay(os.Args[2:]))
 	default:
 		fmt.Println("unknown command")
 		os.Exit(2)
@@ -90,4 +98,75 @@ func dev(args []string) {
 		fmt.Printf("KNOWN-FINDING hit %s label=%s count=%d\n", id, h.Label, h.Count)
 	}
 	sol.Close()
+}
+
+func run(args []string) int {
+	fs := flag.NewFlagSet("run", flag.ExitOnError)
+	prop := fs.String("property", "", "property id")
+	tier := fs.String("tier", "", "quick|thorough")
+	only := fs.String("only", "", "job name filter")
+	verbose := fs.Bool("v", false, "verbose")
+	workers := fs.Int("workers", 0, "workers")
+	nonative := fs.Bool("no-native", false, "skip translator validation")
+	fs.Parse(args)
+	if *tier == "" {
+		*tier = os.Getenv("VERIF_TIER")
+	}
+	if *tier == "" {
+		*tier = "quick"
+	}
+	seed := int64(1)
+	if s := os.Getenv("VERIF_SEED"); s != "" {
+		if v, err := strconv.ParseInt(s, 10, 64); err == nil {
+			seed = v
+		}
+	}
+	return driver.RunProperty(driver.RunOpts{Prop: *prop, Tier: *tier, Seed: seed, Only: *only, Verbose: *verbose, Workers: *workers, NoNative: *nonative})
+}
+
+func replay(args []string) int {
+	if len(args) < 1 {
+		fmt.Println("usage: vcheck replay <file>")
+		return 2
+	}
+	b, err := os.ReadFile(args[0])
+	if err != nil {
+		fmt.Println(err)
+		return 2
+	}
+	var v struct {
+		Job     string            `json:"job"`
+		Harness string            `json:"harness"`
+		Dir     string            `json:"dir"`
+		Label   string            `json:"label"`
+		Params  map[string]int    `json:"params"`
+		Model   map[string]uint64 `json:"model"`
+	}
+	if err := json.Unmarshal(b, &v); err != nil {
+		fmt.Println(err)
+		return 2
+	}
+	ov, err := driver.BuildOverlay()
+	if err != nil {
+		fmt.Println(err)
+		return 2
+	}
+	to := 20000
+	if v.Label == "unwind" {
+		to = 5000
+	}
+	res, err := driver.RunNative(ov, []driver.NativeCase{{ID: "replay", Harness: v.Harness, Params: v.Params, Model: v.Model, TimeoutMs: to, Dir: v.Dir}}, false)
+	if err != nil {
+		fmt.Println(err)
+		return 2
+	}
+	r := res["replay"]
+	out, _ := json.MarshalIndent(r, "", " ")
+	fmt.Printf("native replay of %s (label %s):\n%s\n", v.Job, v.Label, out)
+	if driver.Confirms(v.Label, r) {
+		fmt.Println("REPRODUCED")
+		return 1
+	}
+	fmt.Println("not reproduced")
+	return 0
 }
